@@ -60,10 +60,12 @@ def run(ctx):
         return
     cfgs = QUICK_CFG if ctx.quick else ALL_CFG
     lines, meta, tlcruns = contract.build_runs(ctx, n_tlc=60 if ctx.quick else 400, n_big=1 if ctx.quick else 6, configs=cfgs,
-                                               corpus=1 if ctx.quick else 3, extra_corpus=FUNCS,
+                                               corpus=1 if ctx.quick else 3, extra_corpus=FUNCS, corpus_tlc_db=not ctx.quick, corpus_cfgs=2 if ctx.quick else None,
                                                gens=None if ctx.quick else [(2, 2, ctx.seed), (3, 2, ctx.seed + 1000), (4, 1, ctx.seed + 2000)])
+    contract.matrix_runs(ctx, lines, meta, thorough=not ctx.quick)
     runs, summary = contract.record(ctx, lines)
     res = contract.judge(ctx, "C30", runs, meta, known_key=known_key)
+    judged_ops = contract.require_operators([r for r in runs if r["status"] == "ok"], contract.REQUIRED_OPERATORS)
     ok = [r for r in runs if r["status"] == "ok"]
     types = collections.Counter(c["t"] + ("" if c["n"] else " NOT NULL") for r in ok for n in r["nodes"] for c in n["schema"])
     fcalls = collections.Counter()
@@ -82,7 +84,8 @@ def run(ctx):
         "samples": [{"sql": meta[sample["id"]]["sql"], "cfg": meta[sample["id"]]["cfg"],
                      "root_schema": sample["root"], "logical_schema": sample["logical"],
                      "functions": [f for n in sample["nodes"] for f in n["fns"]][:4]}],
-        "configurations": cfgs, "operator_coverage": contract.coverage(ok), "batches_judged": batches,
+        "configurations": cfgs + sorted({c for f in contract.FAMILIES.values() for c in f[1]}), "operator_coverage": contract.coverage(ok),
+        "operators_judged_output_consumed_in_full": judged_ops, "operator_types_not_reached": contract.NOT_REACHED, "batches_judged": batches,
         "declared_column_types": dict(types.most_common(40)), "non_nullable_columns_judged": nonnull_cols,
         "scalar_function_invocations": dict(sorted(fcalls.items())), "sources": dict(collections.Counter(meta[r["id"]]["src"] for r in ok)),
         "tlc_generated_cases": sum(t.distinct for t in tlcruns), **res,
